@@ -1,8 +1,17 @@
 use std::io::Result as IoResult;
 use std::io::{Read, Write};
 
+#[cfg(tiny_http_verif)]
+use crate::verif_rt::mpsc::{channel, Receiver, Sender};
+#[cfg(tiny_http_verif)]
+use crate::verif_rt::Mutex;
+#[cfg(tiny_http_verif)]
+use std::sync::Arc;
+#[cfg(not(tiny_http_verif))]
 use std::sync::mpsc::channel;
+#[cfg(not(tiny_http_verif))]
 use std::sync::mpsc::{Receiver, Sender};
+#[cfg(not(tiny_http_verif))]
 use std::sync::{Arc, Mutex};
 
 use std::mem;
